@@ -307,7 +307,7 @@ func runC16Race(t *testing.T, cases []map[string]interface{}, ev *vEvents) {
 	// expired sign-ins while other requests add new ones)
 	go2 := newSessWorld([]string{"okta"})
 	defer go2.w.Close()
-	go2.okta.ttl = 900 * time.Millisecond
+	go2.okta.ttl = time.Millisecond // every sign-in is expired by the time the second factor is tried: each try evicts it
 	var wg2 syncWaitGroup
 	for k := 0; k < 8; k++ {
 		wg2.Add(1)
@@ -330,8 +330,14 @@ func runC16Race(t *testing.T, cases []map[string]interface{}, ev *vEvents) {
 				case 4:
 					go2.w.Do(vReq{Method: "POST", Path: oktaPollCheckPath, Cookies: map[string]string{authCookieName: ck[u]}, Form: url.Values{}})
 				}
-				if n%40 == 39 {
-					time.Sleep(time.Second) // let the sign-ins of this worker's users expire
+				if n%50 == 49 {
+					go2.okta.mu.Lock()
+					if go2.okta.ttl == time.Millisecond { // alternate with sign-ins that live for a while
+						go2.okta.ttl = 2 * time.Second
+					} else {
+						go2.okta.ttl = time.Millisecond
+					}
+					go2.okta.mu.Unlock()
 				}
 			}
 		}(k)
